@@ -134,8 +134,28 @@ theorem tableLeaves_tags (c : Codec) (st : State) :
     simp only [tableLeaves, tableNames, List.flatMap_cons, List.map_append] at *
     rw [entryLeaves_tags c st e h.1, ih]
 
+theorem lookup_mem : ∀ (st : State) (f : String) (v : FVal), st.lookup f = some v → (f, v) ∈ st
+  | [], _, _, h => by simp [List.lookup] at h
+  | (k, w) :: rest, f, v, h => by
+    by_cases hk : f = k
+    · subst hk
+      simp [List.lookup] at h
+      subst h
+      simp
+    · have hne : (f == k) = false := by simpa using hk
+      simp only [List.lookup, hne] at h
+      exact List.mem_cons_of_mem _ (lookup_mem rest f v h)
+
+theorem mem_stateToks {st : State} {f : String} {v : FVal} {t : Tok} (h : getattr st f = some v)
+    (ht : t ∈ fvalToks v) : t ∈ stateToks st :=
+  List.mem_flatMap.2 ⟨(f, v), lookup_mem st f v h, ht⟩
+
+/-- what the proofs need from the number codec for one state -/
+def NumOK (c : Codec) (st : State) : Prop := ∀ v ∈ stateToks st, c.prsNum (c.fmtNum v) = .ok v
+def IntOK (c : Codec) : Prop := ∀ i, c.prsInt (c.fmtInt i) = .ok i
+
 /-- reading one entry back out of `pre ++ (its leaves) ++ post`, when no earlier leaf carries its names -/
-theorem parseField_entry (c : Codec) (hc : c.Lawful) (st : State) (e : XName × String)
+theorem parseField_entry (c : Codec) (hnum : NumOK c st) (hint : IntOK c) (e : XName × String)
     (h : entryOK st e = true) (hn : nodupB e.1.names = true) (pre post : List Leaf)
     (hpre : ∀ l ∈ pre, ∀ n ∈ e.1.names, l.tag ≠ n) :
     parseField c (pre ++ entryLeaves c st e ++ post) e = .ok (e.2, valOf st e.2) := by
@@ -152,12 +172,13 @@ theorem parseField_entry (c : Codec) (hc : c.Lawful) (st : State) (e : XName × 
       cases v with
       | num x =>
         have hnt : (n == "time") = false := by simpa [kindOK] using h
+        have hx := hnum x (mem_stateToks hg (by simp [fvalToks]))
         simp [parseField, hnt, subNum, entryLeaves, valOf, hg, List.append_assoc,
-          findLeaf_append_of_not_mem n pre _ hp, findLeaf_cons_self, hc.num]
+          findLeaf_append_of_not_mem n pre _ hp, findLeaf_cons_self, hx]
       | time t =>
         have hnt : (n == "time") = true := by simpa [kindOK] using h
         simp [parseField, hnt, subInt, entryLeaves, valOf, hg, List.append_assoc,
-          findLeaf_append_of_not_mem n pre _ hp, findLeaf_cons_self, hc.int]
+          findLeaf_append_of_not_mem n pre _ hp, findLeaf_cons_self, hint t]
       | vec a b => simp [kindOK] at h
       | none => simp [kindOK] at h
     | pair a b =>
@@ -168,9 +189,11 @@ theorem parseField_entry (c : Codec) (hc : c.Lawful) (st : State) (e : XName × 
         exact fun h' => hn h'
       cases v with
       | vec x y =>
+        have hx := hnum x (mem_stateToks hg (by simp [fvalToks]))
+        have hy := hnum y (mem_stateToks hg (by simp [fvalToks]))
         simp [parseField, subNum, entryLeaves, valOf, hg, List.append_assoc,
           findLeaf_append_of_not_mem a pre _ hpa, findLeaf_append_of_not_mem b pre _ hpb,
-          findLeaf_cons_self, findLeaf_cons_ne b ⟨a, c.fmtNum x⟩ _ hab, hc.num]
+          findLeaf_cons_self, findLeaf_cons_ne b ⟨a, c.fmtNum x⟩ _ hab, hx, hy]
       | num _ => simp [kindOK] at h
       | time _ => simp [kindOK] at h
       | none => simp [kindOK] at h
@@ -193,7 +216,7 @@ theorem nodupB_append {a b : List String} (h : nodupB (a ++ b) = true) :
 
 /-- Key lemma: for ANY table whose XML names are pairwise different and any state typed for it, the reader's
     loop over the table recovers exactly the values the writer's loop put into the element. -/
-theorem parse_written (c : Codec) (hc : c.Lawful) (st : State) :
+theorem parse_written (c : Codec) (st : State) (hnum : NumOK c st) (hint : IntOK c) :
     ∀ (tb : List (XName × String)) (pre : List Leaf),
       typedFor tb st = true → nodupB (tableNames tb) = true →
       (∀ l ∈ pre, ∀ n ∈ tableNames tb, l.tag ≠ n) →
@@ -205,10 +228,10 @@ theorem parse_written (c : Codec) (hc : c.Lawful) (st : State) :
     rw [hsplit] at hn hpre
     obtain ⟨hn1, hn2, hdis⟩ := nodupB_append hn
     have hhead : parseField c (pre ++ tableLeaves c st (e :: es)) e = .ok (e.2, valOf st e.2) := by
-      have := parseField_entry c hc st e ht.1 hn1 pre (tableLeaves c st es)
+      have := parseField_entry c hnum hint e ht.1 hn1 pre (tableLeaves c st es)
         (fun l hl n hn' => hpre l hl n (by simp [hn']))
       simpa [tableLeaves, List.append_assoc] using this
-    have htail := parse_written c hc st es (pre ++ entryLeaves c st e) ht.2 hn2 (by
+    have htail := parse_written c st hnum hint es (pre ++ entryLeaves c st e) ht.2 hn2 (by
       intro l hl n hn'
       simp only [List.mem_append] at hl
       rcases hl with hl | hl
@@ -260,11 +283,11 @@ theorem projectState_eq (T : TType) (st : State) :
     projectState T st = (classAttrs T).map fun a => (a, valOf st a) := rfl
 
 /-- a state written with the table of `T` is read back as the same values, held by the class of `T` -/
-theorem parseState_written (c : Codec) (hc : c.Lawful) (T : TType) (st : State)
+theorem parseState_written (c : Codec) (T : TType) (st : State) (hnum : NumOK c st) (hint : IntOK c)
     (ht : typedFor (table T) st = true) :
     parseState c T ⟨stateTag T, tableLeaves c st (table T)⟩ = .ok (projectState T st) := by
   obtain ⟨_, hnd, hsub, hsup, hkey, _, _, _⟩ := tableOK_parts T
-  have hp := parse_written c hc st (table T) [] ht hnd (by simp)
+  have hp := parse_written c st hnum hint (table T) [] ht hnd (by simp)
   simp only [List.nil_append] at hp
   have hall : ((table T).map fun e => (e.2, valOf st e.2)).all (fun p => (classAttrs T).contains p.1) = true := by
     simp only [List.all_map, List.all_eq_true, Function.comp, List.contains_eq_mem, decide_eq_true_eq]
@@ -395,14 +418,14 @@ theorem createTrajNode_ok (c : Codec) (T : TType) (ppId : Int) (tr : Traj) (h : 
   simp [createTrajNode, this, trajNodeOf]
 
 /-- reading a written trajectory: same type, same id, the states of `normTraj` -/
-theorem parseTraj_written (c : Codec) (hc : c.Lawful) (T : TType) (ppId : Int) (tr : Traj)
-    (h : goodTraj T tr = true) :
+theorem parseTraj_written (c : Codec) (T : TType) (ppId : Int) (tr : Traj)
+    (hnum : ∀ st ∈ tr.states, NumOK c st) (hint : IntOK c) (h : goodTraj T tr = true) :
     parseTraj c (trajNodeOf c T ppId tr) = .ok (T, ppId, normTraj T tr) := by
   obtain ⟨h1, h2, s00, rest0, hs0, _⟩ := goodTraj_parts h
   obtain ⟨_, _, _, _, _, _, _, htag⟩ := tableOK_parts T
   have hstates := mapRes_map_ok (parseState c T)
     (fun st => (⟨stateTag T, tableLeaves c st (table T)⟩ : StateNode)) (projectState T) tr.states
-    (fun st hst => parseState_written c hc T st (h1 st hst))
+    (fun st hst => parseState_written c T st (hnum st hst) hint (h1 st hst))
   -- the sorted list
   cases hS : (tr.states.map (projectState T)).mergeSort timeLe with
   | nil =>
@@ -434,7 +457,7 @@ theorem parseTraj_written (c : Codec) (hc : c.Lawful) (T : TType) (ppId : Int) (
       simp only [mkTraj, g1, g2, g3, Bool.not_true, Bool.false_eq_true, if_false, if_true]
     have hnorm : normTraj T tr = ⟨timeOf s0, s0 :: rest⟩ := by
       simp [normTraj, hS]
-    simp only [parseTraj, trajNodeOf, htag, List.lookup, beq_self_eq_true, hc.int, hstates, hS, hmk, hnorm]
+    simp only [parseTraj, trajNodeOf, htag, List.lookup, beq_self_eq_true, hint ppId, hstates, hS, hmk, hnorm]
 
 /-! ## Part 4: planning-problem solutions and the whole document -/
 
@@ -471,7 +494,8 @@ theorem goodPPS_parts {p : PPS} (h : goodPPS p = true) :
   simp only [goodPPS, Bool.and_eq_true] at h
   exact ⟨h.1.1, h.1.2, h.2⟩
 
-theorem parsePPS_written (c : Codec) (hc : c.Lawful) (p : PPS) (h : goodPPS p = true) :
+theorem parsePPS_written (c : Codec) (p : PPS) (hnum : ∀ st ∈ p.traj.states, NumOK c st) (hint : IntOK c)
+    (h : goodPPS p = true) :
     parsePPS c (vehicleId p.model p.vtype) p.cost.name (ppsNode c p) = .ok (normPPS p) := by
   obtain ⟨hv, hcost, hg⟩ := goodPPS_parts h
   obtain ⟨st0, _, rest, hst⟩ := normTraj_head hg
@@ -479,16 +503,17 @@ theorem parsePPS_written (c : Codec) (hc : c.Lawful) (p : PPS) (h : goodPPS p = 
   have hmk : mkPPS p.ppId p.model p.vtype p.cost (normTraj p.ttype p.traj) = .ok (normPPS p) := by
     simp only [mkPPS, hst, attrsOf_project, hgs, hv, hcost, Bool.not_true, Bool.false_eq_true, if_false, normPPS]
   simp only [parsePPS, parseVehicleId_vehicleId, costOfName_name, ppsNode,
-    parseTraj_written c hc p.ttype p.ppId p.traj hg, hmk]
+    parseTraj_written c p.ttype p.ppId p.traj hnum hint hg, hmk]
 
-theorem parseNodes_written (c : Codec) (hc : c.Lawful) :
-    ∀ (ps : List PPS), ps.all goodPPS = true →
+theorem parseNodes_written (c : Codec) (hint : IntOK c) :
+    ∀ (ps : List PPS), (∀ p ∈ ps, ∀ st ∈ p.traj.states, NumOK c st) → ps.all goodPPS = true →
       parseNodes c (ps.map fun p => vehicleId p.model p.vtype) (ps.map (·.cost.name)) (ps.map (ppsNode c))
         = .ok (ps.map normPPS)
-  | [], _ => rfl
-  | p :: ps, h => by
+  | [], _, _ => rfl
+  | p :: ps, hnum, h => by
     simp only [List.all_cons, Bool.and_eq_true] at h
-    simp only [List.map_cons, parseNodes, parsePPS_written c hc p h.1, parseNodes_written c hc ps h.2]
+    simp only [List.map_cons, parseNodes, parsePPS_written c p (hnum p (by simp)) hint h.1,
+      parseNodes_written c hint ps (fun q hq => hnum q (by simp [hq])) h.2]
 
 theorem encodeSol_ok (c : Codec) (auto : Option String) (s : Solution) (h : s.pps.all goodPPS = true) :
     encodeSol c auto s = .ok ⟨"CommonRoadSolution", benchOf s, rootAttrs c auto s, s.pps.map (ppsNode c)⟩ := by
@@ -497,13 +522,15 @@ theorem encodeSol_ok (c : Codec) (auto : Option String) (s : Solution) (h : s.pp
     exact createTrajNode_ok c p.ttype p.ppId p.traj (goodPPS_parts (h p hp)).2.2)
   simp [encodeSol, this]
 
-theorem parseHeader_written (c : Codec) (hc : c.Lawful) (auto : Option String) (s : Solution) :
+theorem parseHeader_written (c : Codec) (auto : Option String) (s : Solution)
+    (hct : ∀ t, s.ct = some t → c.prsNum (c.fmtNum t) = .ok t)
+    (hdt : ∀ d, s.date = some d → c.prsDate (c.fmtDate d.sec) = some d.sec) :
     parseHeader c (rootAttrs c auto s) =
       .ok (s.date.map (fun d => ⟨d.sec, 0⟩), s.ct, if s.proc = some "auto" then auto else s.proc) := by
   unfold rootAttrs
   generalize (if s.proc = some "auto" then auto else s.proc) = pn
-  cases hct : s.ct <;> cases hd : s.date <;> cases pn <;>
-    simp [parseHeader, optAttr, List.lookup, hc.num, hc.date]
+  cases hc' : s.ct <;> cases hd : s.date <;> cases pn <;>
+    simp_all [parseHeader, optAttr, List.lookup]
 
 theorem dictInsert_new (d : List PPS) (p : PPS) (h : ∀ q ∈ d, q.ppId ≠ p.ppId) : dictInsert d p = d ++ [p] := by
   have : d.any (·.ppId == p.ppId) = false := by
@@ -543,6 +570,23 @@ theorem Codec.ident_lawful : Codec.ident.Lawful where
   int := fun i => by simp [Codec.ident]
   date := fun _ => rfl
 
+theorem Codec.Lawful.lawfulFor {c : Codec} (hc : c.Lawful) (s : Solution) : c.LawfulFor s :=
+  ⟨fun v _ => hc.num v, hc.int, fun d _ => hc.date d.sec⟩
+
+/-- the per-state form of `LawfulFor.num` -/
+theorem LawfulFor_states {c : Codec} {s : Solution} (hc : c.LawfulFor s) :
+    ∀ p ∈ s.pps, ∀ st ∈ p.traj.states, NumOK c st := by
+  intro p hp st hst v hv
+  apply hc.num
+  simp only [numToks, List.mem_append, List.mem_flatMap, ppsToks]
+  exact Or.inl ⟨p, hp, st, hst, hv⟩
+
+theorem LawfulFor_ct {c : Codec} {s : Solution} (hc : c.LawfulFor s) :
+    ∀ t, s.ct = some t → c.prsNum (c.fmtNum t) = .ok t := by
+  intro t ht
+  apply hc.num
+  simp [numToks, ht]
+
 /-! ## Part 5: the schema -/
 
 /-- table facts used by the schema proof: "time" is the XML name of `time_step` only; tuple names are not "time" -/
@@ -558,7 +602,8 @@ theorem tableOK2_all : ∀ T, tableOK2 T = true := by
     integer time step, any other leaf a number -/
 theorem leaf_char (c : Codec) (T : TType) (st : State) (ht : typedFor (table T) st = true) :
     ∀ l ∈ tableLeaves c st (table T), l.tag ∈ leafNames T ∧
-      ((l.tag = "time" ∧ l.text = c.fmtInt (timeOf st)) ∨ (l.tag ≠ "time" ∧ ∃ v, l.text = c.fmtNum v)) := by
+      ((l.tag = "time" ∧ l.text = c.fmtInt (timeOf st)) ∨
+       (l.tag ≠ "time" ∧ ∃ v ∈ stateToks st, l.text = c.fmtNum v)) := by
   intro l hl
   refine ⟨?_, ?_⟩
   · rw [leafNames, ← tableLeaves_tags c st (table T) ht]
@@ -582,8 +627,8 @@ theorem leaf_char (c : Codec) (T : TType) (st : State) (ht : typedFor (table T) 
           simp only [Bool.and_eq_true, bne_iff_ne, ne_eq] at h2e
           simp only [entryLeaves, valOf, hg, Option.getD_some, List.mem_cons, List.not_mem_nil, or_false] at hle
           rcases hle with rfl | rfl
-          · exact Or.inr ⟨h2e.1, x, rfl⟩
-          · exact Or.inr ⟨h2e.2, y, rfl⟩
+          · exact Or.inr ⟨h2e.1, x, mem_stateToks hg (by simp [fvalToks]), rfl⟩
+          · exact Or.inr ⟨h2e.2, y, mem_stateToks hg (by simp [fvalToks]), rfl⟩
         | num _ => simp [kindOK] at hok
         | time _ => simp [kindOK] at hok
         | none => simp [kindOK] at hok
@@ -593,7 +638,7 @@ theorem leaf_char (c : Codec) (T : TType) (st : State) (ht : typedFor (table T) 
           have hn : n ≠ "time" := by simpa [kindOK] using hok
           simp only [entryLeaves, valOf, hg, Option.getD_some, List.mem_cons, List.not_mem_nil, or_false] at hle
           subst hle
-          exact Or.inr ⟨hn, x, rfl⟩
+          exact Or.inr ⟨hn, x, mem_stateToks hg (by simp [fvalToks]), rfl⟩
         | time t =>
           have hn : n = "time" := by simpa [kindOK] using hok
           subst hn
@@ -630,7 +675,7 @@ theorem filter_tag_length (L : List Leaf) (p : String) :
 
 theorem validState_written (c : Codec) (lx : Lex) (T : TType) (d : TrajDecl) (st : State)
     (hrow : rowOK T d = true) (ht : typedFor (table T) st = true)
-    (hF : ∀ v, lx.float (c.fmtNum v) = true) (hI : lx.int (c.fmtInt (timeOf st)) = true) :
+    (hF : ∀ v ∈ stateToks st, lx.float (c.fmtNum v) = true) (hI : lx.int (c.fmtInt (timeOf st)) = true) :
     validState lx d.state ⟨stateTag T, tableLeaves c st (table T)⟩ = true := by
   simp only [rowOK, Bool.and_eq_true, beq_iff_eq, List.all_eq_true] at hrow
   obtain ⟨⟨⟨⟨_, hst⟩, hlen⟩, hcnt⟩, hty⟩ := hrow
@@ -646,13 +691,13 @@ theorem validState_written (c : Codec) (lx : Lex) (T : TType) (d : TrajDecl) (st
     obtain ⟨hmem, hkind⟩ := leaf_char c T st ht l hl
     have hl2 := hty l.tag hmem
     simp only [validLeaf, hl2]
-    rcases hkind with ⟨h1, h2⟩ | ⟨h1, v, h2⟩
+    rcases hkind with ⟨h1, h2⟩ | ⟨h1, v, hv, h2⟩
     · simp [h1, lexOK, h2, hI]
-    · simp [h1, lexOK, h2, hF]
+    · simp [h1, lexOK, h2, hF v hv]
 
 theorem validTraj_written (c : Codec) (lx : Lex) (p : PPS) (d : TrajDecl)
     (hrow : rowOK p.ttype d = true) (hg : goodTraj p.ttype p.traj = true)
-    (hF : ∀ v, lx.float (c.fmtNum v) = true)
+    (hF : ∀ st ∈ p.traj.states, ∀ v ∈ stateToks st, lx.float (c.fmtNum v) = true)
     (hI : ∀ st ∈ p.traj.states, lx.int (c.fmtInt (timeOf st)) = true) :
     validTraj lx d (ppsNode c p) = true := by
   obtain ⟨h1, _, s0, rest, hs, _⟩ := goodTraj_parts hg
@@ -664,7 +709,7 @@ theorem validTraj_written (c : Codec) (lx : Lex) (p : PPS) (d : TrajDecl)
     forall_apply_eq_imp_iff₂]
   refine ⟨⟨⟨htag.symm, trivial⟩, by simp [hs]⟩, ?_⟩
   intro st hst
-  exact validState_written c lx p.ttype d st hrow (h1 st hst) hF (hI st hst)
+  exact validState_written c lx p.ttype d st hrow (h1 st hst) (hF st hst) (hI st hst)
 
 theorem nondecr_map_succ : ∀ (l : List Nat), nondecr (l.map (· + 1)) = nondecr l
   | [] => rfl
@@ -747,12 +792,13 @@ theorem matchSeq_ok (lx : Lex) : ∀ (ds : List TrajDecl) (ns : List TrajNode),
           (fun m hm d' hd' => hval m hm d' (by simp [hd']))
 
 theorem validAttrs_written (c : Codec) (lx : Lex) (auto : Option String) (s : Solution)
-    (hF : ∀ v, lx.float (c.fmtNum v) = true) (hD : ∀ d, lx.dateTime (c.fmtDate d) = true) :
+    (hF : ∀ t, s.ct = some t → lx.float (c.fmtNum t) = true)
+    (hD : ∀ d, s.date = some d → lx.dateTime (c.fmtDate d.sec) = true) :
     validAttrs lx solSchema.attrs (rootAttrs c auto s) = true := by
   unfold rootAttrs
   generalize (if s.proc = some "auto" then auto else s.proc) = pn
   cases hct : s.ct <;> cases hd : s.date <;> cases pn <;>
-    simp [validAttrs, optAttr, solSchema, List.lookup, lexOK, hF, hD]
+    simp_all [validAttrs, optAttr, solSchema, List.lookup, lexOK]
 
 /-! ## Part 6: order of the read-back states, normal form, undeclared tags -/
 
@@ -815,5 +861,30 @@ theorem matchSeq_undeclared (lx : Lex) (n : TrajNode) (ns : List TrajNode) :
     rw [matchSeq]
     simp [hne, matchSeq_undeclared lx n ns ds h']
 
+
+/-! ## Part 7: the values that come back -/
+
+/-- the reader's state carries, for every field of `T`, the very token of the written state -/
+theorem project_values (T : TType) (st : State) (ht : typedFor (table T) st = true) :
+    ∀ f ∈ fields T, getattr (projectState T st) f = getattr st f ∧ getattr st f ≠ none := by
+  intro f hf
+  obtain ⟨hmap, _, hsub, _, _, _, _, _⟩ := tableOK_parts T
+  rw [← hmap, List.mem_map] at hf
+  obtain ⟨e, he, rfl⟩ := hf
+  have hok := typed_entry ht he
+  unfold entryOK at hok
+  cases hg : getattr st e.2 with
+  | none => simp [hg] at hok
+  | some v =>
+    rw [getattr_project T st e.2 (hsub e he)]
+    simp [valOf, hg]
+
+/-- order and content of the states of a normalised trajectory -/
+theorem normTraj_states (T : TType) (tr : Traj) :
+    (normTraj T tr).states.Pairwise (fun a b => timeOf a ≤ timeOf b) ∧
+    (normTraj T tr).states.Perm (tr.states.map (projectState T)) := by
+  refine ⟨?_, List.mergeSort_perm _ _⟩
+  have := List.pairwise_mergeSort timeLe_trans timeLe_total (tr.states.map (projectState T))
+  exact this.imp (fun h => by simpa [timeLe] using h)
 
 end CR.Sol
